@@ -202,10 +202,21 @@ an id outside [0, 2^53], a URI outside the *intended* grammar (`specUri`, not th
 the option's intended type.  On today's code the list is non-empty exactly at the findings (F2, id ranges that
 are not checked, `force_reregister: 1`, UNREGISTER's unchecked `forward_for`). -/
 
+/-- the WAMP id range, as the protocol defines it (NOT regenerated from the code): 0 … 2^53 -/
+def specIdOk (i : Int) : Bool := 0 ≤ i && i ≤ 9007199254740992
+
 def allIdOk : List WVal → Bool
   | [] => true
-  | .int i :: xs => idOk i && allIdOk xs
+  | .int i :: xs => specIdOk i && allIdOk xs
   | _ => false
+
+/-- the message type codes of the WAMP protocol (spec table, NOT regenerated from the code) -/
+def specCodes : List (Str × Int) :=
+  [(cs!"Hello", 1), (cs!"Welcome", 2), (cs!"Abort", 3), (cs!"Challenge", 4), (cs!"Authenticate", 5), (cs!"Goodbye", 6),
+   (cs!"Error", 8), (cs!"Publish", 16), (cs!"Published", 17), (cs!"Subscribe", 32), (cs!"Subscribed", 33),
+   (cs!"Unsubscribe", 34), (cs!"Unsubscribed", 35), (cs!"Event", 36), (cs!"EventReceived", 337), (cs!"Call", 48),
+   (cs!"Cancel", 49), (cs!"Result", 50), (cs!"Register", 64), (cs!"Registered", 65), (cs!"Unregister", 66),
+   (cs!"Unregistered", 67), (cs!"Invocation", 68), (cs!"Interrupt", 69), (cs!"Yield", 70)]
 
 def specUriOk (specUri : Bool → Bool → Bool → Str → Bool) (fl : UriFlags) : WVal → Bool
   | .null => fl.allowNone
@@ -221,7 +232,7 @@ def OptStep.specViolation (specUri : Bool → Bool → Bool → Str → Bool) (m
   | .bool, _ => some cs!"type"
   | .boolLoose, .bool _ => none
   | .boolLoose, _ => some cs!"type"
-  | .int _, .int i => if s.idLike && !idOk i then some cs!"id-range" else none
+  | .int _, .int i => if s.idLike && !specIdOk i then some cs!"id-range" else none
   | .int _, _ => some cs!"type"
   | .str, .str _ => none
   | .str, _ => some cs!"type"
@@ -246,7 +257,7 @@ def OptStep.specViolation (specUri : Bool → Bool → Bool → Str → Bool) (m
   | .roles _ _, _ => some cs!"type"
 
 def PosStep.specViolation (specUri : Bool → Bool → Bool → Str → Bool) (m : Msg) : PosStep → Option (Str × Str)
-  | .id f => (match m.get f with | .int i => if idOk i then none else some (f, cs!"id-range") | _ => some (f, cs!"type"))
+  | .id f => (match m.get f with | .int i => if specIdOk i then none else some (f, cs!"id-range") | _ => some (f, cs!"type"))
   | .uri f fl => if specUriOk specUri fl (m.get f) then none else some (f, cs!"uri")
   | .str f => if (m.get f).isStr then none else some (f, cs!"type")
   | .extra f => (match m.get f with | .dict _ => none | _ => some (f, cs!"type"))
@@ -255,6 +266,9 @@ def PosStep.specViolation (specUri : Bool → Bool → Bool → Str → Bool) (m
   | .uriByMatch f _ key _ => if specUriOk specUri (matchFlags (strOf (m.get key))) (m.get f) then none else some (f, cs!"uri")
 
 def Schema.specViolations (σ : Schema) (specUri : Bool → Bool → Bool → Str → Bool) (m : Msg) : List (Str × Str) :=
+  (match specCodes.find? (fun e => e.1 == σ.name) with
+   | some e => if e.2 == σ.code then [] else [(cs!"type_code", cs!"code")]
+   | none => [(cs!"type_code", cs!"code")]) ++
   σ.pos.filterMap (PosStep.specViolation specUri m) ++
   σ.opts.filterMap (fun s => (s.specViolation specUri m).map (fun r => (s.field, r))) ++
   (match σ.tail with
